@@ -134,6 +134,13 @@ def search_accept():
                     if f:
                         yield n, {'own': 16384, 'peer': 65536, 'contexts': contexts, 'served': served,
                                   'supported_ts': supported}, f
+    # context ids that are not ascending: answered in the proposed order all the same
+    for ids in ((3, 1), (5, 1, 3), (255, 1)):
+        n += 1
+        contexts = [(cid, SOPS[i % 2], [TS[0]]) for i, cid in enumerate(ids)]
+        f = check_accept(16384, 65536, contexts, SOPS[:1], [TS[0]])
+        if f:
+            yield n, {'own': 16384, 'peer': 65536, 'contexts': contexts, 'served': SOPS[:1], 'supported_ts': [TS[0]]}, f
     for own in GRID:
         for peer in GRID:
             n += 1
@@ -243,6 +250,13 @@ def search_request():
             f = check_request(16384, 65536, sops, supported, pattern)
             if f:
                 yield n, {'sops': sops, 'reply': pattern}, f
+    # the whole id range: 128 configured classes (ids 1 .. 255), all accepted / the last one rejected
+    many = ['1.2.826.0.1.3680043.9.%d' % i for i in range(128)]
+    for last in ((0, TS[0]), (3, '')):
+        n += 1
+        f = check_request(16384, 65536, many, supported, [(0, TS[0])] * 127 + [last])
+        if f:
+            yield n, {'sops': '128 classes (ids 1..255)', 'reply': 'all accepted' if last[0] == 0 else 'id 255 rejected'}, f
     for own in GRID:
         for peer in GRID:
             n += 1
@@ -391,9 +405,9 @@ def main():
         gen, bound = search_ids(), 'sequences of add calls with 0..128 classes, and 129/139/200 classes in one call'
     elif '_loop' in name:
         gen, bound = search_loop(), 'context in table x class served x class accepted under another id'
-    elif 'Requester' in name or 'get_scu' in name:
+    elif 'Requester' in name or 'get_scu' in name or 'build_pres_context_def_list' in name:
         gen, bound = search_request(), ('0..3 configured SOP classes x every reply pattern over (accept ts1, accept ts2, '
-                                        'reject 1/3/4); 10x10 maximum-length grid')
+                                        'reject 1/3/4); 128 classes (ids 1..255); 10x10 maximum-length grid')
     else:
         gen, bound = search_accept(), ('0..2 proposed contexts x 2 abstract syntaxes x ordered lists of 1..2 of 3 '
                                        'transfer syntaxes x 3 served sets x 4 supported sets; 10x10 maximum-length grid')
